@@ -43,9 +43,12 @@ func (d FileDisk) ReadTo(a uint64, buf Block) {
 	if a >= d.numBlocks {
 		panic(fmt.Errorf("out-of-bounds read at %v", a))
 	}
-	_, err := unix.Pread(d.fd, buf, int64(a*BlockSize))
+	n, err := unix.Pread(d.fd, buf, int64(a*BlockSize))
 	if err != nil {
 		panic("read failed: " + err.Error())
+	}
+	if uint64(n) != BlockSize {
+		panic(fmt.Errorf("short read of %d bytes at %v", n, a))
 	}
 }
 
@@ -62,9 +65,12 @@ func (d FileDisk) Write(a uint64, v Block) {
 	if a >= d.numBlocks {
 		panic(fmt.Errorf("out-of-bounds write at %v", a))
 	}
-	_, err := unix.Pwrite(d.fd, v, int64(a*BlockSize))
+	n, err := unix.Pwrite(d.fd, v, int64(a*BlockSize))
 	if err != nil {
 		panic("write failed: " + err.Error())
+	}
+	if uint64(n) != BlockSize {
+		panic(fmt.Errorf("short write of %d bytes at %v", n, a))
 	}
 }
 
